@@ -1,5 +1,5 @@
 (* Proofs about KV.Yaml.Fmt (the canonical formatter).  The model file contains no proofs. *)
-From KV Require Import Yaml.Fmt Yaml.FmtSort.
+From KV Require Import Yaml.Fmt Yaml.FmtSort Yaml.FmtTablesRef.
 From Coq Require Import Permutation Sorted.
 
 Ltac inv H := inversion H; subst; clear H.
@@ -1500,3 +1500,15 @@ Proof.
   split; [vm_compute; reflexivity|]. split; [vm_compute; reflexivity|].
   split; [vm_compute; reflexivity|]. vm_compute. reflexivity.
 Qed.
+
+(* ---------- the generated tables are the pinned reference tables (Yaml/FmtTablesRef.v) ---------- *)
+
+Lemma Gen_fmt_whitelist_eq_ref :
+  wl_kinds = ref_wl_kinds /\ wl_apis = ref_wl_apis /\ wl_fields = ref_wl_fields.
+Proof. repeat split; reflexivity. Qed.
+
+Lemma Gen_field_order_eq_ref : field_sort_order = ref_field_sort_order.
+Proof. reflexivity. Qed.
+
+Lemma Gen_type_to_tag_eq_ref : type_to_tag = ref_type_to_tag.
+Proof. reflexivity. Qed.
